@@ -394,3 +394,15 @@ _add('C19', 'CLOSED WORLD (Props/C19W.lean): periodic_sensor_reachable (samples 
      'callback result each, exactly one pending event), series_reachable, output_sensor_reachable / decision_pattern.')
 CLAIMED['C16']['text'] = CLAIMED['C16']['text'].replace(' (partial: sites not theorems)', ' (the site amounts are theorems of the closed-world layer below)')
 CLAIMED['C20']['note'] = BASE_NOTE + ' The late-creation clause: create_started / create_commutes / late_processor_bookkeeping for the model (group specs: registration and single initialisation only); tie to the code by correspondence on families sys, sysm and the implementation-only family sysi.'
+
+_add('C10', 'Props/C10W.lean: World.scanOps satisfies the generic laws (scan_laws), served_only_when_feasible, check_shuffle / '
+     'served_sublist (registration order), check_cbLog, served_once over whole runs, check_after_change, for a class that '
+     'allows scripted register/reserve/release/merge, rewiring and creation; the scan fuel is the explicit decidable side '
+     'condition StepDone (fuel_needed shows a self-re-registering always-feasible callback never lets the scan finish).')
+_add('C15', 'DYNAMIC WORLDS (Props/C15D.lean): the same theorems when assets are created while running (payloads with zero counters; '
+     'necessity counterexamples).')
+_add('C16', 'DYNAMIC WORLDS (Props/C16D.lean): the value equations when assets are created while running; nested batches are checked '
+     'on the real code (harness/c16.py).')
+CLAIMED['C03']['text'] = CLAIMED['C03']['text'].replace('Several groups are outside S4:', 'MID-RUN REWIRING (scripts and outside operations) is covered by '
+     'no_lost_wakeup_rewire_all_reachable (class S4R; connection_added: a newly connected acceptor gets an attempt queued at that '
+     'instant; connection_removed; four checked counterexamples for the excluded rewirings). Several groups and creation are outside S4R:')
